@@ -31,12 +31,12 @@ def _mods(repo):
             ("load", "classify", "zeta_grid", "rise", "recession", "user_interface", "fit_offsets")}
 
 
-def planted(seed, n_events=4, sy=0.8, drop=(0.35, 0.9), weak=False):
+def planted(seed, n_events=4, sy=0.8, drop=(0.35, 0.9), weak=False, wiggle=False):
     """Returns dict(rain, et, wl, truth) — lists of (epoch, value).  Every planted storm is a storm for the thresholds the
     stand-ins use (4 mm/h rain, 8 mm/h rise): a draw with a weaker one (possible near the top of the master curve) is
     rejected and redrawn from a derived seed, so that the planted ranges are a valid oracle."""
     for attempt in range(2000):
-        d = _planted(seed if attempt == 0 else seed * 1000003 + attempt, n_events, sy, drop, weak)
+        d = _planted(seed if attempt == 0 else seed * 1000003 + attempt, n_events, sy, drop, weak, wiggle)
         if d is None:
             continue
         # weak=True: one storm of varying intensity (7.2, 12, 7.2 mm/h with rises of 9, 15, 9 mm/h): a storm for the
@@ -46,7 +46,7 @@ def planted(seed, n_events=4, sy=0.8, drop=(0.35, 0.9), weak=False):
     raise RuntimeError("no admissible planted dataset for seed %r" % seed)
 
 
-def _planted(seed, n_events=4, sy=0.8, drop=(0.35, 0.9), weak=False):
+def _planted(seed, n_events=4, sy=0.8, drop=(0.35, 0.9), weak=False, wiggle=False):
     rng = random.Random(seed)
     # master recession curve on the lattice: strictly decreasing, slowing down
     zr = [60.0]
@@ -102,14 +102,16 @@ def _planted(seed, n_events=4, sy=0.8, drop=(0.35, 0.9), weak=False):
         # recession of m samples along the master curve, starting at the storm's end level
         m = rng.randint(5, 12)
         for j in range(m):
-            emit(zr[pos + j], 0.0)
+            # wiggle: the second recession creeps back up once (by less than the rise threshold), so that it crosses some
+            # grid levels three times -- only meaningful for the stand-ins that do not compare with the planted curve
+            emit(zr[pos + 1] if (wiggle and ev == 1 and j == 3 and m >= 6) else zr[pos + j], 0.0)
         ranges["interstorm"].append((zr[pos + m - 1], zr[pos]))
         pos = pos + m
         cur = zr[pos]
         events.append(("recession", m))
     emit(cur, 0.0)
     et = [(pipeline.E0 + k * STEP, 0.1) for k in range(-1, t + 2)]
-    return {"rain": rain, "et": et, "wl": wl, "truth": {"zr": zr, "sy": sy}, "events": events, "ranges": ranges}
+    return {"rain": rain, "et": et, "wl": wl, "truth": {"zr": zr, "sy": sy}, "events": events, "ranges": ranges, "wiggle": wiggle}
 
 
 def workflow(repo, data, grid_mm, ref=None, shift=0, tz="UTC", cli=False, steps=("rise", "recession")):
@@ -451,9 +453,11 @@ def run_C13(repo, tier, seed):
     ev = 0
     failures, samples = [], []
     for k in range(2 if tier == "quick" else 10):
-        for grid in (1.0, 0.5, 2.5):
-            data = planted(seed * 31 + k)
-            case = {"planted_seed": seed * 31 + k, "grid_step_mm": grid}
+        for grid in (1.0, 0.5, 2.5, -0.5):
+            # grid < 0 marks the dataset with a non-monotone recession (levels crossed more than once), at |grid|
+            data = planted(seed * 31 + k, wiggle=grid < 0)
+            grid = abs(grid)
+            case = {"planted_seed": seed * 31 + k, "grid_step_mm": grid, "non_monotone_recession": data.get("wiggle", False)}
             try:
                 con = workflow(repo, data, grid)
             except Exception as e:
